@@ -207,6 +207,15 @@ class C09(PropBase):
             # mutually recursive type aliases (lazily evaluated `type` statements), None declared first
             world["modules"][0]["decls"].append({"d": "raw", "n": "VwRA", "src": "type VwRA = None | int | VwRB\ntype VwRB = None | str | VwRA\ntype VwRC = list[VwRC] | int\n"})
             roots.append({"k": "raw", "src": rng.choice(["vw0.VwRA", "vw0.VwRB", "list[vw0.VwRA]", "vw0.VwRC", "dict[str, vw0.VwRB]"])})
+        if rng.random() < 0.3:
+            # generics without fields of their own that are not collections the library names: their arguments
+            # are members like any other (iterators, views, ChainMap, a user Generic class)
+            world["modules"][0]["decls"].append({"d": "raw", "n": "VwPage", "src": (
+                "VwPT = typing.TypeVar('VwPT')\nclass VwPage(typing.Generic[VwPT]):\n    pass\n"
+                "@dataclasses.dataclass\nclass VwFeed:\n    name: str\n    entries: typing.Iterator[VwSame]\n    pages: VwPage[int] = None\n")})
+            roots.append({"k": "raw", "src": rng.choice(["typing.Iterator[int]", "collections.abc.Iterator[vw0.VwSame]", "collections.ChainMap[str, vw0.VwSame]",
+                                                         "vw0.VwPage[vw0.VwSame]", "list[typing.Iterator[vw0.VwSame]]", "dict[str, vw0.VwPage[int]]", "vw0.VwFeed",
+                                                         "collections.abc.KeysView[str]", "typing.Generator[int, None, None]"])})
         # (two member orders of one member set in one process is the union-order alias that C08/C12 record;
         # this check is about the shape of the graph, not about which equal union was built first)
         gen.one_order_per_member_set(world, roots)
